@@ -19,17 +19,19 @@ REGISTRY = {
             'any abstract state that is a post-fixpoint of its statements bounds every execution trace (any order, any repetition, '
             'any prefix of the statements: branches, loops, exceptions), hence mayWrite p = [] implies no parameter object and '
             'mayWriteGlobal p = [] no global object changes version; histories of any length of such programs leave every '
-            'caller-owned object unchanged, so a later query returns what it returns on fresh arguments; per generated function '
-            'the obligation mayWrite = [] is decided by the kernel over the regenerated module, summaries are checked closed, and '
-            'every member of the API surface is analysed or explicitly declared outside. Dynamic tie: every API member is called on '
+            'caller-owned object unchanged, so a later query returns what it returns on fresh arguments; a summary table closed '
+            'under the bodies bounds real nested execution of calls (nested_calls_bounded); per generated function the obligation '
+            'mayWriteIn = [] is decided by the kernel over the regenerated module (generated_queries_pure, end to end in '
+            'generated_query_frame), editors write only their own object, getters and special methods are pure, summaries and '
+            'tables are checked closed, and every member of the API surface is analysed or explicitly declared outside. Dynamic tie: every API member is called on '
             'a dozen annotation shapes with all modification kinds; arguments, random.getstate() and the EntryDb maps are '
             'snapshotted around every call, every returned container/annotation is edited and the arguments re-snapshotted, '
             'history independence is run exhaustively over ordered pairs and randomly over triples; the set of functions observed '
             'writing an argument must be contained in the set the Lean analysis flags',
     'note': 'trusted: Lean kernel; the translator\'s classification of Python statements into IR statements (which method names '
-            'mutate, which expressions copy deeply/shallowly/alias) and its call resolution; calls are executed by their summaries '
-            '(summaries are kernel-checked to be closed under the bodies, the fixpoint-induction step from closed summaries to '
-            'nested execution is not formalised); object identity of results is checked only dynamically; records handed in by the '
+            'mutate, which expressions copy deeply/shallowly/alias), its SSA renaming, inplace specialisation and call resolution; '
+            'the lumping of everything below a parameter into one abstract object; object identity of results is checked only '
+            'dynamically; records handed in by the '
             'caller (Mod, Interval, Fragment) may be handed back by reference; field accessors and create_multi_annotation '
             '(aggregate of its arguments) are outside the no-shared-state clause; unseeded shuffle() is random by contract',
     'technique': 'Lean 4 proof about a regenerated effect model + dynamic snapshot/alias/history checks',
@@ -94,8 +96,8 @@ def run(chk):
         'translator harness/translate_effects.py: classification of Python statements into effect-IR statements (mutator method '
         'names, deep/shallow copy recognisers, alias through attribute/subscript/iteration, call resolution by name inside the '
         'package); an unrecognised call on a tracked name is treated as writing it',
-        'a call is executed by the callee\'s summary; summaries are checked closed under the bodies by the kernel, the step from '
-        'closed summaries to nested execution is the usual fixpoint induction and is not formalised',
+        'in the trace semantics a call is executed by the callee\'s summary; summaries_closed (kernel) + nested_calls_bounded (theorem) '
+        'carry the bounds over to real nested execution of the translated bodies',
         'dynamic only: returned objects are distinct from the arguments (edit-the-result test); records (Mod, Interval, Fragment) '
         'passed in may be passed back; property getters, get_internal_mods_by_index and create_multi_annotation hand back '
         'fields/arguments by design and are outside the no-shared-state clause',
@@ -138,6 +140,9 @@ def run(chk):
         return None if not fs else '; '.join(f['kind'] + ': ' + f['detail'][:300] for f in fs)
 
     chk.oracle('corpus', cases, o_corpus, key_fn=lambda c: json.dumps(c, sort_keys=True))
+
+    # ------------------------------------------------------------------ process-wide tables at the very first calls
+    _record(chk, 'first_call_module_tables', [{'evals': len(st.specs) * len(st.bases), 'failures': st.first_call_failures}], 'first')
 
     # ------------------------------------------------------------------ single calls: writes, globals, shared state, determinism
     full0 = D.db_stamp_full()
@@ -290,5 +295,8 @@ def replay(chk, obj):
         print(json.dumps(obj, indent=1)[:6000])
         return 0
     fs = D.eval_case(case)
+    if case.get('kind') == 'global-state-disturbed':
+        # such a change is visible only at the first call in a process: the warm-up pass of the state build recorded it
+        fs = fs + [f for f in D.STATE.first_call_failures if f['calls'] == case['calls']][:3]
     print(json.dumps({'case': case, 'failures_now': fs}, indent=1)[:6000])
     return 1 if fs else 0
